@@ -579,4 +579,209 @@ example : let t := Term.init { w := 4, h := 2 }
 
 end Term
 
+/-! ## composition of parameter lists and of SGR -/
+
+open Term
+
+theorem splitBy_ne_nil (sep : Nat) (a : List Nat) : splitBy sep a ≠ [] := by
+  cases a with
+  | nil => simp [splitBy]
+  | cons b bs =>
+    unfold splitBy
+    split
+    · simp
+    · split <;> simp
+
+theorem splitBy_append (sep : Nat) (a b : List Nat) :
+    splitBy sep (a ++ sep :: b) = splitBy sep a ++ splitBy sep b := by
+  induction a with
+  | nil => simp [splitBy]
+  | cons x xs ih =>
+    by_cases hx : x = sep
+    · simp [splitBy, hx, ih]
+    · have hne := splitBy_ne_nil sep xs
+      cases hs : splitBy sep xs with
+      | nil => exact absurd hs hne
+      | cons p ps => simp [splitBy, hx, ih, hs]
+
+theorem allSome_append {α : Type} (l1 l2 : List (Option α)) :
+    allSome (l1 ++ l2) = (allSome l1).bind fun a => (allSome l2).map (a ++ ·) := by
+  induction l1 with
+  | nil => cases h : allSome l2 <;> simp [h]
+  | cons x xs ih =>
+    cases x with
+    | none => simp
+    | some v =>
+      simp only [List.cons_append, allSome_cons_some, ih]
+      cases allSome xs <;> simp
+      cases allSome l2 <;> simp
+
+/-- parameter lists of `a ; b` are those of `a` followed by those of `b` -/
+theorem parseParams_append (a b : List Nat) (pa pb : List Param)
+    (ha : parseParams a = some pa) (hb : parseParams b = some pb) :
+    parseParams (a ++ 0x3b :: b) = some (pa ++ pb) := by
+  rw [parseParams_eq] at ha hb ⊢
+  rw [splitBy_append, List.map_append, allSome_append, ha, hb]
+  rfl
+
+/-- rendering of small numbers -/
+theorem dec_lt10 (n : Nat) (h : n < 10) : dec n = [48 + n] := by
+  show showDec n = _
+  rw [showDec_eq]; simp [h]
+
+theorem dec_append_digit (a d : Nat) (ha : 0 < a) (hd : d < 10) : dec (a * 10 + d) = dec a ++ [48 + d] := by
+  show showDec (a * 10 + d) = showDec a ++ _
+  rw [showDec_eq]
+  have h1 : ¬ (a * 10 + d < 10) := by omega
+  have h2 : (a * 10 + d) / 10 = a := by omega
+  have h3 : (a * 10 + d) % 10 = d := by omega
+  simp [h1, h2, h3]
+
+namespace Term
+
+/-- the written-out recursion of `applySgr` is `sgrStep` with the recursive call as continuation -/
+theorem applySgr_step (f : Nat) (p : Param) (rest : List Param) (t : Term) :
+    applySgr (f + 1) (p :: rest) t = sgrStep (applySgr f) p rest t := by
+  match p with
+  | [] => rfl
+  | [none] => rfl
+  | [some n] => rfl
+  | some n :: s :: subs => rfl
+  | none :: s :: subs => rfl
+
+/-- `sgrStep` only calls its continuation on `rest` or on a suffix of it -/
+theorem sgrStep_congr (k k' : List Param → Term → Term) (p : Param) (rest : List Param) (t : Term)
+    (h : ∀ r2 t', r2.length ≤ rest.length → k r2 t' = k' r2 t') : sgrStep k p rest t = sgrStep k' p rest t := by
+  have R : ∀ t', k rest t' = k' rest t' := fun t' => h rest t' (Nat.le_refl _)
+  unfold sgrStep
+  split
+  · exact R _
+  · exact R _
+  · split
+    · split
+      · split <;> exact h _ _ (by simp only [List.length_cons]; omega)
+      · split <;> exact h _ _ (by simp only [List.length_cons]; omega)
+      · rfl
+    · split
+      · exact R _
+      · split
+        · exact R _
+        · split <;> exact R _
+  · split
+    · split
+      · split <;> exact R _
+      · exact R _
+    · split
+      · split
+        · split <;> exact R _
+        · exact R _
+      · exact R _
+  · exact R _
+
+/-- more fuel than parameters changes nothing -/
+theorem applySgr_fuel : ∀ (f g : Nat) (ps : List Param) (t : Term), ps.length ≤ f → ps.length ≤ g →
+    applySgr f ps t = applySgr g ps t := by
+  intro f
+  induction f with
+  | zero =>
+    intro g ps t hf _
+    have : ps = [] := List.eq_nil_of_length_eq_zero (by omega)
+    subst this
+    cases g <;> rfl
+  | succ f ih =>
+    intro g ps t hf hg
+    cases ps with
+    | nil => cases g <;> rfl
+    | cons p rest =>
+      cases g with
+      | zero => simp at hg
+      | succ g =>
+        have hf' : rest.length ≤ f := by simpa using hf
+        have hg' : rest.length ≤ g := by simpa using hg
+        rw [applySgr_step, applySgr_step]
+        exact sgrStep_congr _ _ _ _ _ (fun r2 t' h => ih g r2 t' (by omega) (by omega))
+
+/-- a parameter that does not start a `;`-form extended colour: do it, then continue -/
+theorem sgrStep_split (k : List Param → Term → Term) (p : Param) (rest : List Param) (t : Term)
+    (hp : p ≠ [some 38] ∧ p ≠ [some 48] ∧ p ≠ [some 58]) :
+    sgrStep k p rest t = k rest (sgrStep (fun _ t => t) p [] t) := by
+  unfold sgrStep
+  split
+  · rfl
+  · rfl
+  · rename_i n
+    have hn : ¬ (n = 38 ∨ n = 48 ∨ n = 58) := by
+      intro h
+      rcases h with h | h | h <;> subst h <;> simp at hp
+    simp only [hn, if_false]
+    split
+    · rfl
+    · split
+      · rfl
+      · split <;> rfl
+  · split
+    · split
+      · split <;> rfl
+      · rfl
+    · split
+      · split
+        · split <;> rfl
+        · rfl
+      · rfl
+  · rfl
+
+/-- a parameter that is not the start of a `;`-form extended colour is processed on its own -/
+theorem sgr_cons (t : Term) (p : Param) (rest : List Param)
+    (hp : p ≠ [some 38] ∧ p ≠ [some 48] ∧ p ≠ [some 58]) :
+    t.sgr (p :: rest) = (t.sgr [p]).sgr rest := by
+  unfold sgr
+  simp only [List.length_cons, List.length_nil]
+  rw [applySgr_step, applySgr_step, sgrStep_split _ p rest t hp, sgrStep_split (applySgr 0) p [] t hp]
+  rfl
+
+/-- `38;5;n` (48, 58 alike) inside a longer parameter list -/
+theorem sgr_cons_ext5 (t : Term) (which n : Nat) (rest : List Param)
+    (hw : which = 38 ∨ which = 48 ∨ which = 58) (hn : n ≤ 255) :
+    t.sgr ([some which] :: [some 5] :: [some n] :: rest) = ({ t with pen := setExt t.pen which (.idx n) } : Term).sgr rest := by
+  unfold sgr
+  simp only [List.length_cons]
+  rw [applySgr_step]
+  simp only [sgrStep, hw, if_true, hn]
+  exact applySgr_fuel _ _ _ _ (by omega) (by omega)
+
+/-- `38;2;r;g;b` (48, 58 alike) inside a longer parameter list -/
+theorem sgr_cons_ext2 (t : Term) (which r g b : Nat) (rest : List Param)
+    (hw : which = 38 ∨ which = 48 ∨ which = 58) (hr : r ≤ 255) (hg : g ≤ 255) (hb : b ≤ 255) :
+    t.sgr ([some which] :: [some 2] :: [some r] :: [some g] :: [some b] :: rest) =
+      ({ t with pen := setExt t.pen which (.rgb r g b) } : Term).sgr rest := by
+  have hc : colorOk (.rgb r g b) = true := by simp [colorOk, hr, hg, hb]
+  unfold sgr
+  simp only [List.length_cons]
+  rw [applySgr_step]
+  simp only [sgrStep, hw, if_true, hc]
+  exact applySgr_fuel _ _ _ _ (by omega) (by omega)
+
+@[simp] theorem sgr_nil (t : Term) : t.sgr [] = t := by simp [sgr, applySgr]
+
+/-- `ESC [ p1 ; p2 m` with two plain numeric parameters is the two SGRs one after the other
+    (`setfgbg` of the 8/16-colour entries) -/
+theorem sgr_two_effect (t : Term) (hst : t.st = .ground) (a b : Nat) (ha : a ≠ 38 ∧ a ≠ 48 ∧ a ≠ 58) :
+    t.feed (csiSeq (dec a ++ 0x3b :: dec b) 0x6d) = (t.sgr [[some a]]).sgr [[some b]] := by
+  have hps : parseParams (dec a ++ 0x3b :: dec b) = some ([[some a]] ++ [[some b]]) :=
+    parseParams_append _ _ _ _ (by rw [parseParams_last _ (semi_not_mem_dec _), parseParam_dec]; rfl)
+      (by rw [parseParams_last _ (semi_not_mem_dec _), parseParam_dec]; rfl)
+  have hbody : ∀ x ∈ dec a ++ 0x3b :: dec b, (48 ≤ x ∧ x ≤ 57) ∨ x = 0x3b ∨ x = 0x3a := by
+    intro x hx
+    rcases List.mem_append.mp hx with h | h
+    · exact numeric_dec _ x h
+    · rcases List.mem_cons.mp h with h | h
+      · exact Or.inr (Or.inl h)
+      · exact numeric_dec _ x h
+  rw [feed_csi_plain t hst _ 0x6d _ hbody (by omega) hps]
+  have : dispatchPlain t ([[some a]] ++ [[some b]]) 0x6d = t.sgr ([some a] :: [[some b]]) := by simp [dispatchPlain]
+  rw [this, sgr_cons t [some a] [[some b]] (by
+    refine ⟨?_, ?_, ?_⟩ <;> intro h <;> simp at h <;> omega)]
+
+end Term
+
 end Tcell.Spec.Ecma48
